@@ -737,8 +737,17 @@ func (req *Request) ParseRequestHeaderLine(line []byte, options ParseOptions) (e
 		return fmt.Errorf("syntax error")
 	}
 	args := bytes.TrimLeft(matched[1], " ")
+	header := string(bytes.ToLower(matched[0]))
 
-	switch string(bytes.ToLower(matched[0])) {
+	// commands have no table, so there are no columns to filter on
+	if req.Command != "" {
+		switch header {
+		case "filter", "stats", "waitcondition":
+			return fmt.Errorf("header not supported for commands")
+		}
+	}
+
+	switch header {
 	case "filter":
 		err = ParseFilter(args, req.Table, &req.Filter, options)
 		req.NumFilter++
